@@ -179,6 +179,13 @@ def instance_loss(src, n=3, crash=False):
                 src.check('sequenced-process-running-once-on-survivor',
                           len(running[nme]) == 1 and running[nme][0] not in silent, **ctx)
                 src.check('started-once', starts.count(nme) == 1, **ctx)
+        for v in handled:
+            if not inseq[v] and strat[v] == 'RESTART_PROCESS':
+                # strategy.py add_restart_application_job: the application job supersedes the process jobs of the
+                # start sequence only; a RESTART_PROCESS program outside it still gets running again
+                src.reach('restart-application-and-unsequenced-restart-process')
+                src.check('unsequenced-restart-process-running-once-on-survivor',
+                          len(running[v]) == 1 and running[v][0] not in silent, **ctx)
     elif top == 'RESTART_PROCESS':
         src.reach('restart-process')
         for v in handled:
@@ -202,7 +209,8 @@ HARNESSES = [
     Harness('H06a', handler_algebra, quick={'k': 3}, thorough={'k': 4}, reach=('fed',), timeout=(120, 1200),
             doc='RunningFailureHandler job algebra: precedence and promotion over sequences of notifications'),
     Harness('H06d', instance_loss, quick={'n': 3}, thorough={'n': 3}, reach=('master', 'non-master',
-            'stop-application', 'restart-application', 'restart-process', 'continue'), timeout=(150, 900),
+            'stop-application', 'restart-application', 'restart-process', 'continue',
+            'restart-application-and-unsequenced-restart-process'), timeout=(150, 900),
             doc='loss of one or two instances seen by the Master (and by a non-Master) of a stable cluster'),
 ]
 BOUNDS = {'quick': {'instances': 3, 'processes': 2, 'lost_instances': '1..2 in the same evaluation',
